@@ -39,7 +39,7 @@ TRUSTED_BASE = [
     "model coq/X509/VerifyModel.v written by hand from x509/verify.go, cert_pool.go, x509.go:CheckSignatureFrom; tied by the correspondence run of this check",
     "specification coq/X509/PathSpec.v + NameMatchSpec.v written from the property text and RFC 5280/6125 (readings listed in the file headers)",
     "extraction: ExtrOcamlBasic only; nat/positive/N/Z stay inductive; runner ocaml/x509/main.ml and ocaml/conv.ml.tmpl",
-    "Go drivers harness/cmd/c10 (black box: Verify, VerifyHostname on library-built PKIs; abstract description = fields of the parsed certificates + CheckSignature matrix) and harness/cmd/c10w (white box through x509/verif_verify_verif.go)",
+    "Go drivers harness/cmd/c10 (black box: Verify, VerifyHostname on library-built PKIs; abstract description = fields of the parsed certificates, except BasicConstraintsValid / IsCA / MaxPathLen which are the values put into the templates, + CheckSignature matrix) and harness/cmd/c10w (white box through x509/verif_verify_verif.go)",
     "python transcription of valid_chain in checks/c10.py (independent of the Coq model) used as the property predicate",
 ]
 ASSUMPTIONS = [
